@@ -20,6 +20,8 @@ SPIN = {"off": "SpinOff", "clockwise": "SpinCW", "counter": "SpinCCW"}
 POWER = {"off": "PowOff", "constant": "PowConst", "dynamic": "PowDyn"}
 SWAP = {"off": "SwapOff", "manual": "SwapManual", "automatic": "SwapAuto"}
 COOL = {"off": "CoolOff", "mist": "CoolMist", "flood": "CoolFlood"}
+# emergency_halt(message): ordinary text, the empty message, and messages with line boundaries (one comment line each)
+EMERGENCY_MESSAGES = ["door open", "x", "limit hit; stop", "", "door\nopen", "e-stop\r\npressed", "limit\u2028X", "tab\there"]
 HALT = {"off": "HaltOff", "pause": "HPause", "optional-pause": "HOptPause", "end-without-reset": "HEnd",
         "end-with-reset": "HEndReset", "pallet-exchange": "HPallet", "wait-for-bed": "HWaitBed",
         "wait-for-hotend": "HWaitHotend", "wait-for-chamber": "HWaitChamber", "wait-for-motion": "HWaitMotion"}
@@ -92,6 +94,8 @@ def g_hook(h):
         return "(HRecord %d)" % h[1]
     if h[0] == "set":
         return '(HSet %d "%s" %s)' % (h[1], h[2], g_x(h[3]))
+    if h[0] == "drop":
+        return '(HDrop %d "%s")' % (h[1], h[2])
     if h[0] == "extrude":
         # area = nozzle*layer ; cross = pi*(d/2)^2 with pi the double math.pi (as computed in floats)
         return "(HExtrude %d %s %s)" % (h[1], g_Q(Fraction(h[5])), g_Q(Fraction(h[6])))
@@ -298,6 +302,13 @@ def make_hook(h, calls):
                           [fnum(target.x), fnum(target.y), fnum(target.z)]))
             params.update({k: to_py(v)})
             return params
+        return hook
+    if h[0] == "drop":
+        def hook(origin, target, params, state, _id=h[1], k=h[2]):
+            calls.append((_id, [fnum(origin.x), fnum(origin.y), fnum(origin.z)],
+                          [fnum(target.x), fnum(target.y), fnum(target.z)]))
+            # a NEW mapping without the word: the hook's return value replaces the parameters
+            return type(params)({k2: v for k2, v in params.items() if k2 != k})
         return hook
     if h[0] == "extrude":
         from gscrib.hooks.extrusion_hook import extrusion_hook
@@ -839,7 +850,7 @@ class Gen:
         if op == "emergency":
             self.tool = False
             self.cool = False
-            return ("emergency", r.choice(["door open", "x", "limit hit; stop"]), r.random() < 0.5)
+            return ("emergency", r.choice(EMERGENCY_MESSAGES), r.random() < 0.5)
         if op == "query":
             return ("query", self.mode(QUERY))
         if op == "comment":
@@ -857,8 +868,10 @@ class Gen:
             if i not in self.hook_ids:
                 self.hook_ids.append(i)
             k = r.random()
-            if k < 0.5:
+            if k < 0.4:
                 return ("add_hook", ("record", i))
+            if k < 0.55:
+                return ("add_hook", ("drop", i, r.choice(["A", "F", "F", "S", "E"])))
             k = r.choice(["A", "B", "F", "F", "S"])
             v = self.scalar("feed-rate", [Fraction(100), Fraction(2400)]) if k == "F" else \
                 (self.scalar("tool-power", [Fraction(0), Fraction(500)]) if k == "S" else self.dy(0, 100, 2))
